@@ -174,7 +174,7 @@ def oracle(ctx, deep):
             E = f32_from_bits(d["ent"][2:])
             if math.isnan(E) or E == float("inf"):
                 ctx.violations.append({"finding_key": "C06-wordlist", "case": c["meta"], "observed": a[:200],
-                                       "line": wlgen.wlgen_line(c["list"], c["length"], c["sep"], c["cap"], c["budget"], c["words"], shadow=c.get("shadow")),
+                                       "line": wlgen.case_line(c),
                                        "what": "a wordlist password was returned with Entropy = %r: its probability is positive, 2^-Entropy is not" % E})
                 break
     for meta, a, b in getattr(ctx, "gen_results", []):
@@ -206,7 +206,7 @@ def oracle(ctx, deep):
             if mass * count > 1:
                 ctx.violations.append({"finding_key": key, "what": "separator missing after all %d attempts failed: this outcome has mass about %.3g per gap, 2^-(separator entropy) is %.3g" % (
                     T, float(mass), 1.0 / float(count) if count < 10 ** 300 else 0.0), "case": c["meta"],
-                    "line": wlgen.wlgen_line(c["list"], c["length"], c["sep"], c["cap"], c["budget"], c["words"], shadow=c.get("shadow"))[:300] + "..."})
+                    "line": wlgen.case_line(c)[:300] + "..."})
 
 
 def replay(v):
